@@ -23,8 +23,8 @@ CONSTANTS MaxDefiners,     \* bound on the number of files defining "n"
 VARIABLES stage, case, vws, vix
 vars == <<stage, case, vws, vix>>
 
-MCFiles == {"c0", "c1", "c2", "cs", "u", "o", "m", "h0", "h1", "h2", "hh", "pl", "tp", "tp2", "t0", "t1"}
-MCDirs  == {"R", "Ra", "Rab", "Rs", "P", "T", "T2"}
+MCFiles == {"c0", "c1", "c2", "cs", "u", "o", "m", "h0", "h1", "h2", "hh", "pl", "tp", "tp2", "tpi", "t0", "t1"}
+MCDirs  == {"R", "Ra", "Rab", "Rs", "P", "T", "T2", "Ti"}
 MCDirOf == [f \in MCFiles |->
               CASE f \in {"c0", "h0", "t0"} -> "R"
                 [] f \in {"c1", "h1", "hh", "t1"} -> "Ra"
@@ -32,14 +32,17 @@ MCDirOf == [f \in MCFiles |->
                 [] f = "cs" -> "Rs"
                 [] f = "pl" -> "P"
                 [] f = "tp" -> "T"
-                [] f = "tp2" -> "T2"]
+                [] f = "tp2" -> "T2"
+                [] f = "tpi" -> "Ti"]
 MCParentOf == [d \in MCDirs |->
-              CASE d = "Rab" -> "Ra" [] d = "Ra" -> "R" [] d = "Rs" -> "R" [] OTHER -> "NODIR"]
+              \* Ti: the site-packages directory of a virtualenv that lives INSIDE the workspace root: walking up from an installed
+              \* plugin's module reaches the project's root conftest.py
+              CASE d = "Rab" -> "Ra" [] d = "Ra" -> "R" [] d = "Rs" -> "R" [] d = "Ti" -> "R" [] OTHER -> "NODIR"]
 MCRoleOf == [f \in MCFiles |->
               CASE f \in {"c0", "c1", "c2", "cs"} -> "conftest"
                 [] f \in {"u", "o", "t0", "t1"} -> "test"
                 [] f = "pl" -> "plugin"
-                [] f \in {"tp", "tp2"} -> "third"
+                [] f \in {"tp", "tp2", "tpi"} -> "third"
                 [] OTHER -> "module"]
 
 Names == {"n", "w", "x"}
@@ -53,7 +56,9 @@ MCLevelsCli == [l \in 0..2 |-> CASE l = 0 -> {"absent", "def", "autodef", "star"
                                  [] l = 1 -> {"absent", "def", "autodef", "override", "imp"}
                                  [] l = 2 -> {"absent", "irrelevant", "def", "def2", "override"}]
 MCSameCli == {"none", "def", "override"}
-MCExtraCli == SUBSET {"cs", "o", "tp"}
+\* "tpi": an installed plugin inside the workspace's own virtualenv whose fixture w REQUESTS n (the pytest-flask pattern
+\* client(app)): that request is a usage like any other and resolves to the project's conftest
+MCExtraCli == (SUBSET {"cs", "o", "tp"}) \cup {{"tpi"}, {"tpi", "o"}}
 MCUseCli == {"tp", "um", "fp"}
 MCUFilesU == {"u"}
 MCEmitCli == {"goto", "refs", "unused", "rff"}
@@ -144,7 +149,8 @@ WsOf(c) ==
                          ELSE IF "plo" \in c.ex THEN Module(<<OverN>>) ELSE Absent
           [] f \in {"t0", "t1"} -> IF ExtraUsers THEN Module(<<Test("test_t", <<"n">>)>>) ELSE Absent
           [] f = "tp" -> IF "tp" \in c.ex THEN Module(<<DefN>>) ELSE Absent
-          [] f = "tp2" -> IF "tp2" \in c.ex THEN Module(<<PlainDef("x", <<>>), DefN>>) ELSE Absent]
+          [] f = "tp2" -> IF "tp2" \in c.ex THEN Module(<<PlainDef("x", <<>>), DefN>>) ELSE Absent
+          [] f = "tpi" -> IF "tpi" \in c.ex THEN Module(<<PlainDef("w", <<"n">>)>>) ELSE Absent]
 
 Definers(ws) == { f \in MCFiles : ws[f].present /\ DefsIn(ws, f, "n") # {} }
 Present(ws) == { f \in MCFiles : ws[f].present }
